@@ -264,6 +264,7 @@ def run(ctx):
     seen_keys = {}
     func_used = {}
     used_shapes = set()   # table entries consumed by shape (renamed-local) matching
+    pending_dbg = []
     for s in allsites:
         dbg = any(e in ("debug_assert", "debug_assert_eq", "debug_assert_ne") for e in s.expn)
         rule = r1d if dbg else r1
@@ -286,6 +287,15 @@ def run(ctx):
             rule.ok(key, detail, s.loc, how="AUTO")
             continue
         ent = T.lookup(T.SITES, base, n, used_shapes)
+        if ent is None:
+            # the same site with a sub-expression hoisted into a named local (`let k = self.params.nb_source_symbols; &v[..k]`): compare the
+            # site's text with single-definition locals substituted
+            t_ = s.func.body.blocks[s.bb].term
+            if t_.k == "call":
+                sl_ = _slicer_cache.setdefault(s.func.path, Slicer(s.func.body))
+                txt2 = show(sl_.expand(sl_.x.call_expr(s.bb, t_, sl_.x.depth)), 160)
+                if txt2 != s.text:
+                    ent = T.lookup(T.SITES, "%s|%s|%s" % (s.func.path, s.kind, txt2), n, used_shapes)
         if ent is None and s.func.path in T.FUNCS:
             fe = T.FUNCS[s.func.path]
             kk = (s.func.path, s.kind)
@@ -302,8 +312,28 @@ def run(ctx):
                 counts["TABLE"] += 1
                 rule.ok(key, "reviewed: " + ent["why"] + (" [table entry matched up to local names %s]" % ent["renamed"] if ent.get("renamed") else ""), s.loc, how="TABLE")
             continue
+        if dbg and s.kind == "panic" and "assertion failed" in s.text:
+            pending_dbg.append((s, key, detail))
+            continue
         counts["open"] += 1
         rule.violation(key, "%s site not discharged: %s" % (s.kind, detail), s.loc)
+    # debug_assert! sites whose condition was re-spelled (`debug_assert!(block_len <= self.bytes_left)` for `data.len() <= ..`): the label of
+    # such a site is the source text of its condition.  A site that matches no entry is paired, in order, with the reviewed debug_assert
+    # entries of the same function that matched nothing; the entry's `requires` are still checked at the new site.  (debug builds only.)
+    for (s, key, detail) in pending_dbg:
+        cand = [e for e in T.SITES_LIST if e["_key"].startswith(s.func.path + "|panic|panicking::panic(\"assertion failed") and e["_key"] not in used_table]
+        if cand:
+            ent = cand[0]
+            used_table.add(ent["_key"])
+            problems = check_requires(ctx, prog, ent.get("requires", []), site=s)
+            if problems:
+                r1d.violation(key, "reviewed site whose recorded guard no longer holds: %s (review note: %s)" % ("; ".join(problems), ent["why"]), s.loc)
+            else:
+                counts["TABLE"] += 1
+                r1d.ok(key, "reviewed (debug_assert re-spelled, paired with the entry `%s`): %s" % (ent["_key"].split("|", 2)[2][:80], ent["why"]), s.loc, how="TABLE")
+            continue
+        counts["open"] += 1
+        r1d.violation(key, "%s site not discharged: %s" % (s.kind, detail), s.loc)
     ctx.extra["site_counts"] = counts
     r1.floor(280, "panic-capable sites in the analysed set (cross-checked against the opt-in clippy restriction lints)")
     for k in sorted((set(e["_key"] for e in T.SITES_LIST) | set(e["_key"] for e in T.FUNCS.values())) - used_table):
@@ -355,6 +385,10 @@ def run(ctx):
             cp = norm_path(c.get("rpath") or c["path"])
             if kr in EXTERNAL_CRATES or any(cp.startswith(k + "::") or ("<" + k + "::") in cp for k in EXTERNAL_CRATES):
                 if ranges._is_log(t.sp[5] if t.sp else []):
+                    continue
+                if re.match(r"^<[\w:]+(<.*>)? as (std|core)::(cmp::(PartialEq|Eq|PartialOrd|Ord)|clone::Clone|hash::Hash|fmt::(Debug|Display))(<.*>)?>::\w+$", cp):
+                    # comparison / clone / hash / formatting of a third-party value (`*e == ParseError::X` for `match e { X => .. }`): total
+                    # functions of their arguments, nothing to review
                     continue
                 base = "%s|ext|%s" % (p, model.short_callee(cp))
                 n = next_.get(base, 0)
@@ -421,7 +455,15 @@ def fact_matches(rx_, fact):
     (atom, truth) = fact
     if truth == neg:
         return False
-    return re.search(rx_, show_fact((atom, True))) is not None
+    if re.search(rx_, show_fact((atom, True))) is not None:
+        return True
+    # `x == Enum::V` is the same test as the match arm `x is V`: patterns are written in the `is` form
+    if atom[0] == "eq":
+        for x_, y_ in ((atom[1], atom[2]), (atom[2], atom[1])):
+            m = re.search(r"::(\w+)\{\}$", show(y_, 200))
+            if m and re.search(rx_, "%s is %s" % (show(x_, 300), m.group(1))) is not None:
+                return True
+    return False
 
 
 _REGEX_WORDS = {"self", "len", "not", "is", "Some", "None", "as", "usize", "data", "Range", "start", "end"}
